@@ -319,10 +319,16 @@ impl Cartesian<'_> {
                         let path = self.rrt.plan_rrt(&prev.joints, &next, self.robot, stop);
                         if let Ok(path) = path {
                             println!("  ... closed with RRT {} steps", path.len());
-                            for step in path {
+                            // Only the last node of the detour is the requested pose
+                            let last = path.len().saturating_sub(1);
+                            for (n, step) in path.into_iter().enumerate() {
                                 trace.push(AnnotatedJoints {
                                     joints: step,
-                                    flags: to.flags & !PathFlags::LIN_INTERP,
+                                    flags: if n == last {
+                                        to.flags & !PathFlags::LIN_INTERP
+                                    } else {
+                                        PathFlags::ALTERED
+                                    },
                                 });
                             }
                             success = true;
